@@ -37,7 +37,7 @@ ASSUMPTIONS = [
     "network variable -> program variable correspondence is read from CodeGenerator.polar_variable_names (an observation, checked for injectivity)",
 ]
 TIMEOUT = {"quick": 60, "thorough": 240}
-DEADLINE = {"quick": 75, "thorough": 1100}
+DEADLINE = {"quick": 75, "thorough": 1000}
 MIN_DECIDING = {"quick": 25, "thorough": 300}
 NCASES = {"quick": 64, "thorough": 2400}
 
